@@ -203,6 +203,15 @@ check("C01", "model_checking",
       "Trusted: the harness's recover/watchdog/restart logic, TLC. 'All byte strings' is sampled; the operand product is complete for the listed templates and classes only.",
       "TLC-enumerated complete operand product replayed on the real API + TLC trace validation of recorded observation sequences (byte-level part: exploration)", "DESIGN.md section 4 C01")
 
+check("C11", "model_checking",
+      "spec/Shared.tla models N VMs and the package-level state they could share (error language, global generator) at the granularity of the gates: TLC checks Isolation, "
+      "NoRace and NoLostDraw for the repaired design and requires them to fail for the pinned one; every complete 2-VM schedule (all language and seeded/unseeded assignments; "
+      "thorough: a sample of the 3-VM schedules) is executed on real goroutines parked at the gates (hook H5) and released in schedule order, and TLC (Trace_Shared) compares each "
+      "VM's value / error text / process text with its isolated run.  Free-running goroutines with private VMs run the same programs in a -race build of the harness: every race "
+      "report is a violation, and every evaluation is compared with the same evaluation alone.",
+      "Trusted: the Go race detector, the gate scheduler of the harness, TLC. Interleavings finer than the gates are only exercised by the free-running part; unknown shared state is not excluded.",
+      "TLA+ interleaving model checked by TLC + replay of all TLC schedules on gated goroutines + race-detector runs validated by TLC", "DESIGN.md section 4 C11")
+
 NOT_YET = "check under construction in this build phase (planned in DESIGN.md section 4); not yet claimed"
 
 m = {
